@@ -119,16 +119,18 @@ struct helper_thread {
 template <typename T> T mkval(int i) { if constexpr (std::is_same_v<T, int>) return i; else { T v{}; v.w[0] = (uint64_t)i; return v; } }
 
 template <typename T>
-std::string prog_future(vf::rng &r, bool nonheap, std::vector<cocls::reusable_storage> &stor, helper_thread &H, std::string &desc, long &frames, long &deq) {
+std::string prog_future(vf::rng &r, bool nonheap, std::vector<cocls::reusable_storage> &stor, helper_thread *Hs, std::string &desc, long &frames, long &deq) {
     int ncoro = (int)r.below(9), ncb = (int)r.below(4);
-    bool blocking = r.chance(1, 3), from_coro = false;
+    int nblock = r.chance(1, 2) ? (int)r.below(5) : 0; // 0-4 threads blocked in sync()
+    bool blocking = nblock > 0, from_coro = false;
     int how = (int)r.below(3); // value, drop, destruction
-    desc = std::string("future<") + (std::is_same_v<T, int> ? "int" : "pod8") + "> coro_waiters=" + std::to_string(ncoro) + " callback_waiters=" + std::to_string(ncb) + (blocking ? " blocking_waiter" : "") + " resolve=" + std::to_string(how) + (nonheap ? " nonheap" : "");
+    desc = std::string("future<") + (std::is_same_v<T, int> ? "int" : "pod8") + "> coro_waiters=" + std::to_string(ncoro) + " callback_waiters=" + std::to_string(ncb) + (blocking ? " blocking_waiters=" + std::to_string(nblock) : "") + " resolve=" + std::to_string(how) + (nonheap ? " nonheap" : "");
     c20_ctx C;
     cb_aw cbs[4];
     std::function<void()> hjob; // built before the region (std::function may allocate)
     cocls::future<T> *fptr = nullptr;
-    if (blocking) hjob = [&] { fptr->sync(); C.sum++; };
+    std::atomic<int> woke{0};
+    if (blocking) hjob = [&] { fptr->sync(); woke.fetch_add(1, std::memory_order_relaxed); };
     (void)from_coro;
     std::string err;
     {
@@ -142,21 +144,29 @@ std::string prog_future(vf::rng &r, bool nonheap, std::vector<cocls::reusable_st
                 else { al::creating++; auto a = waiter_heap<T>(f, C); al::creating--; a.detach(); }
             }
             for (int i = 0; i < ncb; i++) { cbs[i].C = &C; if (!f.operator co_await().subscribe(&cbs[i])) C.released++; }
-            if (blocking) H.start(hjob);
+            if (blocking) {
+                uint64_t h0 = vf::total_site_hits(cocls::verif::sync_pre_wait);
+                for (int i = 0; i < nblock; i++) Hs[i].start(hjob);
+                // wait until every helper is really subscribed (it passed the hook in front of its futex wait), bounded
+                uint64_t t0 = vf::rdtsc();
+                while (vf::total_site_hits(cocls::verif::sync_pre_wait) - h0 < (uint64_t)nblock && vf::rdtsc() - t0 < 300000000ull) vf::cpu_relax();
+            }
             if (how == 0) p(mkval<T>(5)); else if (how == 1) p(cocls::drop); else { cocls::promise<T> q = std::move(p); }
-            if (blocking) H.wait();
+            if (blocking) for (int i = 0; i < nblock; i++) Hs[i].wait();
             (void)f.ready();
         }
         frames = reg.nframes(); deq = reg.ndeque();
         if (reg.nother()) err = std::string("allocation by the primitives: ") + al::other_stack;
-        else if (reg.nsp() && ncoro <= 3) err = "suspend point carrying " + std::to_string(ncoro) + " (<= 3) ready coroutines allocated heap memory";
+        else if (reg.nsp() && ncoro <= 3) err = "suspend point carrying " + std::to_string(ncoro) + " (<= 3) ready coroutines allocated heap memory (" + std::to_string(nblock) + " blocking and " + std::to_string(ncb) + " callback waiters carry no coroutine)";
+        else if (woke.load() != nblock) err = "harness: blocking waiters not released";
         else if (C.released != ncoro + ncb) err = "harness: not all waiters released";
         else if (nonheap && frames) err = "coroutine frames were heap allocated although a warm reusable storage was supplied";
     }
     return err;
 }
 
-inline std::string prog_mutex(vf::rng &r, bool nonheap, std::vector<cocls::reusable_storage> &stor, helper_thread &H, std::string &desc, long &frames, long &deq) {
+inline std::string prog_mutex(vf::rng &r, bool nonheap, std::vector<cocls::reusable_storage> &stor, helper_thread *Hs, std::string &desc, long &frames, long &deq) {
+    helper_thread &H = Hs[0];
     int n = 2 + (int)r.below(5);
     bool blocking = r.chance(1, 3);
     desc = "mutex contenders=" + std::to_string(n) + (blocking ? " blocking_contender" : "") + (nonheap ? " nonheap" : "");
@@ -253,7 +263,7 @@ inline std::string prog_generator(vf::rng &r, std::string &desc, long &frames, l
 
 inline void alloc_free_programs(const vf::opts &o, vf::report &R, uint64_t programs) {
     vf::rng master(vf::mix(o.seed, 0x20));
-    helper_thread H;
+    helper_thread Hs[4];
     std::vector<cocls::reusable_storage> stor(10);
     { void *bt[4]; backtrace(bt, 4); } // first call loads libgcc (allocates): keep it out of measured regions
     // warm-up of the reusable storages and of the thread-local ready queue (outside measured regions)
@@ -271,9 +281,9 @@ inline void alloc_free_programs(const vf::opts &o, vf::report &R, uint64_t progr
         bool nonheap = r.chance(1, 3);
         al::other_recorded.store(0);
         switch (r.below(5)) {
-        case 0: err = prog_future<int>(r, nonheap, stor, H, desc, fr, dq); break;
-        case 1: err = prog_future<pod8>(r, nonheap, stor, H, desc, fr, dq); break;
-        case 2: err = prog_mutex(r, nonheap, stor, H, desc, fr, dq); break;
+        case 0: err = prog_future<int>(r, nonheap, stor, Hs, desc, fr, dq); break;
+        case 1: err = prog_future<pod8>(r, nonheap, stor, Hs, desc, fr, dq); break;
+        case 2: err = prog_mutex(r, nonheap, stor, Hs, desc, fr, dq); break;
         case 3: err = prog_suspend_point(r, desc, fr, dq); break;
         default: err = prog_generator(r, desc, fr, dq); break;
         }
